@@ -129,9 +129,9 @@ def block_kws(case, b):
         if re.search(r"^WCON(PROD|INJE|HIST|INJH)\n '%s' " % w, txt, re.M):
             continue
         if w.startswith("P"):
-            kws.append("WCONPROD\n '%s' 'SHUT' 'BHP' 5* 100 /\n/\n" % w)
+            kws.append("WCONPROD\n '%s' 'OPEN' 'BHP' 5* 100 /\n/\n" % w)
         else:
-            kws.append("WCONINJE\n '%s' '%s' 'SHUT' 'RATE' 100 1* 400 /\n/\n" % (w, ph))
+            kws.append("WCONINJE\n '%s' '%s' 'OPEN' 'RATE' 100 1* 400 /\n/\n" % (w, ph))
     return kws
 
 
@@ -490,7 +490,7 @@ class C05(Check):
         P = ctx.P
         req, S, wells, sols, extras, runs, n = self.prepare_run(case, ctx)
         int_keys = [s["key"] for s in sols if "idata" in s]
-        load_keys = [{"key": s["key"], "measure": s["measure"], "required": True} for s in sols if "idata" not in s]
+        load_keys = [{"key": s["key"], "measure": s["measure"], "required": True} for s in sols]
         load_extra = [{"key": e["key"], "measure": e["measure"], "required": True} for e in extras]
         req.update(load_keys=load_keys, load_extra=load_extra, load_via=case["load_via"])
         r = P.call("rst_roundtrip", **req)
@@ -498,7 +498,22 @@ class C05(Check):
             return self.save_error(case, r["save_error"], req["text"])
         if "rst_error" in r:
             return self.rst_error(case, r["rst_error"], S, n)
-        return self.oracle_A(case, r, S, wells, sols, extras, runs, n)
+        return self.pick(self.oracle_A(case, r, S, wells, sols, extras, runs, n, ctx))
+
+    def pick(self, gen):
+        """first violation whose key is not a recorded finding, else the first recorded one (so that a recorded finding
+        does not hide what lies behind it in the same case)"""
+        from vlib.runner import load_known
+        known = {e["key"] for e in load_known(self.ID) if e.get("status") == "known"}
+        first = None
+        for k, v in enumerate(gen):
+            if v.get("key") not in known:
+                return v
+            if first is None:
+                first = v
+            if k > 200:
+                break
+        return first
 
     def save_error(self, case, err, text):
         what = err["what"]
@@ -512,6 +527,8 @@ class C05(Check):
         """the library accepted the deck and wrote the file itself, then cannot continue from it"""
         what = err["what"]
         key = None
+        if re.search(r"Requisite restart vector 'FIPNUMX' is not available", what):
+            key = "A:int-solution-array"
         if re.search(r"Cannot convert integer value -10 to (producer|injector) control mode", what):
             key = "B:well.controlMode-undefined-throws"
         secs = [hexf(x) for x in S["seconds"]]
@@ -523,7 +540,7 @@ class C05(Check):
                            "wells_without_control_mode": [W["name"] for W in S["wells"] if (W["prod_cmode"] if W["producer"] else W["inj_cmode"]) in (P_UNDEF, I_UNDEF, 0)]},
                 "key": key}
 
-    def oracle_A(self, case, r, S, wells, sols, extras, runs, n):
+    def oracle_A(self, case, r, S, wells, sols, extras, runs, n, ctx):
         def V(rule, detail, key=None):
             return {"rule": "A: " + rule, "detail": detail, "key": key}
 
@@ -531,34 +548,42 @@ class C05(Check):
         as_float = not case["double"]
         # 1. solution arrays
         for s in sols:
-            if "idata" in s:
-                continue
             got = L["solution"].get(s["key"])
+            if "idata" in s:
+                if got is None or got.get("idata") != s["idata"]:
+                    yield V("integer solution array differs after the round trip",
+                            {"array": s["key"], "saved": s["idata"][:8], "loaded": got and (got.get("idata") or got.get("data"))[:8]},
+                            "A:int-solution-array")
+                continue
             if got is None:
-                return V("requested solution array missing after load", s["key"])
+                yield V("requested solution array missing after load", s["key"])
+                continue
             g = [hexf(x) for x in got["data"]]
             if len(g) != len(s["data"]):
-                return V("solution array length", [s["key"], len(s["data"]), len(g)])
+                yield V("solution array length", [s["key"], len(s["data"]), len(g)])
+                continue
             for i, (a, b) in enumerate(zip(s["data"], g)):
                 exact = case["double"] and not case["fmt"] and s["measure"] == "identity"
                 tol = 0.0 if exact else tol_array(case, s["measure"], a, as_float)
                 if not abs(a - b) <= tol:
-                    return V("solution array value differs after the round trip",
+                    yield V("solution array value differs after the round trip",
                              {"array": s["key"], "measure": s["measure"], "cell": i, "saved": a, "loaded": b, "tolerance": tol,
                               "double": case["double"], "formatted": case["fmt"], "unit": case["unit"]})
         # 2. extra vectors: always written as DOUB
         for e in extras:
             got = L["extra"].get(e["key"])
             if got is None:
-                return V("requested extra vector missing after load", e["key"])
+                yield V("requested extra vector missing after load", e["key"])
+                continue
             g = [hexf(x) for x in got]
             if len(g) != len(e["data"]):
-                return V("extra vector length", [e["key"], len(e["data"]), len(g)])
+                yield V("extra vector length", [e["key"], len(e["data"]), len(g)])
+                continue
             for i, (a, b) in enumerate(zip(e["data"], g)):
                 exact = not case["fmt"] and e["measure"] == "identity"
                 tol = 0.0 if exact else tol_array(case, e["measure"], a, False)
                 if not abs(a - b) <= tol:
-                    return V("extra vector value differs after the round trip",
+                    yield V("extra vector value differs after the round trip",
                              {"vector": e["key"], "measure": e["measure"], "index": i, "saved": a, "loaded": b, "tolerance": tol,
                               "unit": case["unit"]}, "A:extra-" + e["key"] if e["key"] == "OPMEXTRA" else None)
         # 3. wells
@@ -571,40 +596,47 @@ class C05(Check):
                 continue                      # nothing is asserted for wells that do not flow
             lw = L["wells"].get(name)
             if lw is None:
-                return V("flowing well missing after load", name)
+                yield V("flowing well missing after load", name)
+                continue
             where = {"well": name, "unit": case["unit"], "formatted": case["fmt"], "producer": W["producer"]}
+            ctx.label("A:compared:flowing-" + ("stopped-well" if w["_stopped"] else "producer" if W["producer"] else "injector"))
+            ctx.label("A:compared:connections", len(w["conns"]))
+            if W["msw"]:
+                ctx.label("A:compared:segments", len(w["segs"]))
             for k in pk:
                 a = float.fromhex(w["rates"][k])
                 if k not in lw["rates"]:
-                    return V("well rate not restored", dict(where, phase=k))
+                    yield V("well rate not restored", dict(where, phase=k))
+                    continue
                 b = hexf(lw["rates"][k])
                 if not abs(a - b) <= tol_doub(case, a):
-                    return V("well rate differs after the round trip", dict(where, phase=k, saved=a, loaded=b), "A:well-rate")
+                    yield V("well rate differs after the round trip", dict(where, phase=k, saved=a, loaded=b), "A:well-rate")
             for q in ("bhp", "thp"):
                 a = float.fromhex(w[q])
                 b = hexf(lw[q])
                 if not abs(a - b) <= tol_doub(case, a):
-                    return V("well %s differs after the round trip" % q, dict(where, saved=a, loaded=b), "A:well-" + q)
+                    yield V("well %s differs after the round trip" % q, dict(where, saved=a, loaded=b), "A:well-" + q)
             cc, lc = w["cc"], lw["cc"]
             if w["_stopped"]:
                 pass            # a stopped well is under no control mode
             elif bool(lc["isProducer"]) != cc["isProducer"] or (lc["prod"] if cc["isProducer"] else lc["inj"]) != (cc["prod"] if cc["isProducer"] else cc["inj"]):
-                return V("active control differs after the round trip", dict(where, saved=cc, loaded=lc), "A:well-control")
+                yield V("active control differs after the round trip", dict(where, saved=cc, loaded=lc), "A:well-control")
             lconns = {c["index"]: c for c in lw["conns"]}
             for c in w["conns"]:
                 lc = lconns.get(c["index"])
                 if lc is None:
-                    return V("connection missing after load", dict(where, connection=c["index"]))
+                    yield V("connection missing after load", dict(where, connection=c["index"]))
+                    continue
                 for k in pk:
                     a = float.fromhex(c["rates"][k])
                     b = hexf(lc["rates"].get(k, "0x0p+0"))
                     if not abs(a - b) <= tol_doub(case, a):
-                        return V("connection rate differs after the round trip", dict(where, connection=c["index"], phase=k, saved=a, loaded=b),
+                        yield V("connection rate differs after the round trip", dict(where, connection=c["index"], phase=k, saved=a, loaded=b),
                                  "A:conn-rate")
                 a = float.fromhex(c["pressure"])
                 b = hexf(lc["pressure"])
                 if not abs(a - b) <= tol_doub(case, a):
-                    return V("connection pressure differs after the round trip", dict(where, connection=c["index"], saved=a, loaded=b),
+                    yield V("connection pressure differs after the round trip", dict(where, connection=c["index"], saved=a, loaded=b),
                              "A:conn-pressure")
             if W["msw"]:
                 lsegs = {sg["n"]: sg for sg in lw["segs"]}
@@ -613,7 +645,8 @@ class C05(Check):
                 for sg in w["segs"]:
                     ls = lsegs.get(sg["n"])
                     if ls is None:
-                        return V("segment missing after load", dict(where, segment=sg["n"]))
+                        yield V("segment missing after load", dict(where, segment=sg["n"]))
+                        continue
                     # RSEG stores a total flow T = qo + qw/10 + qg/1000 (deck units) and the water and gas fractions of it;
                     # every phase rate comes back as a product with T: the absolute error of phase p is a few ulp of T
                     # scaled by the phase's renormalisation constant (1, 10, 1000)
@@ -625,12 +658,12 @@ class C05(Check):
                         scale = T * {"oil": fl, "wat": 10.0 * fl, "gas": 1000.0 * fg}[k]
                         if not abs(a - b) <= 4 * tol_doub(case, None, scale):
                             key = "A:seg-gas-rate-field" if (k == "gas" and case["unit"] == "FIELD") else "A:seg-rate"
-                            return V("segment rate differs after the round trip", dict(where, segment=sg["n"], phase=k, saved=a, loaded=b,
+                            yield V("segment rate differs after the round trip", dict(where, segment=sg["n"], phase=k, saved=a, loaded=b,
                                                                                      all_saved=rates), key)
                     a = float.fromhex(sg["pressure"])
                     b = hexf(ls["pressure"])
                     if not abs(a - b) <= tol_doub(case, a):
-                        return V("segment pressure differs after the round trip", dict(where, segment=sg["n"], saved=a, loaded=b), "A:seg-pressure")
+                        yield V("segment pressure differs after the round trip", dict(where, segment=sg["n"], saved=a, loaded=b), "A:seg-pressure")
         # 4. cumulative totals: the summary state holds deck-unit values; the file stores them as DOUB unconverted
         ss, ls = r["saved"]["smry"], L["smry"]
         tot = re.compile(r"^(W|G|F)(O|W|G|V)(P|I)T(H|S|F)?(:|$)")
@@ -638,55 +671,65 @@ class C05(Check):
             if not tot.match(k):
                 continue
             a = hexf(v)
+            if a != 0.0:
+                ctx.label("A:compared:nonzero-" + k[0] + "-totals")
             if k not in ls:
                 if a == 0.0:
                     continue
-                return V("cumulative total not restored", {"vector": k, "saved": a}, "A:total-" + re.sub(r":.*", "", k))
+                yield V("cumulative total not restored", {"vector": k, "saved": a}, "A:total-" + re.sub(r":.*", "", k))
             b = hexf(ls[k])
             # derived totals (xOPTF = xOPT - xOPTS, ...) are recomputed on load: allow ulps of the operands
             if not abs(a - b) <= tol_doub(case, max(abs(a), 1.0) if k[4:5] == "F" else a):
-                return V("cumulative total differs after the round trip", {"vector": k, "saved": a, "loaded": b, "unit": case["unit"]},
+                yield V("cumulative total differs after the round trip", {"vector": k, "saved": a, "loaded": b, "unit": case["unit"]},
                          "A:total-" + re.sub(r":.*", "", k))
         # 5. UDQ values
         su, lu = r["saved"]["udq"]["values"], L["udq"]["values"]
         for name, sv in su.items():
             lv = lu.get(name)
+            ctx.label("A:compared:udq-" + ("field" if "has" in sv else "well" if "wells" in sv else "group"))
+            if "has" in sv and sv["has"]:
+                ctx.label("A:compared:udq-field-defined")
+            if "wells" in sv and any(x is not None for x in sv["wells"].values()):
+                ctx.label("A:compared:udq-well-some-defined")
             if lv is None:
-                return V("UDQ unknown after restart", name, "A:udq-missing")
+                yield V("UDQ unknown after restart", name, "A:udq-missing")
+                continue
             for kind in ("wells", "groups"):
                 if kind in sv:
                     for ent, a in sv[kind].items():
                         b = lv.get(kind, {}).get(ent)
                         if (a is None) != (b is None):
-                            return V("UDQ defined/undefined pattern differs after the round trip",
+                            yield V("UDQ defined/undefined pattern differs after the round trip",
                                      {"udq": name, kind[:-1]: ent, "saved": a and hexf(a), "loaded": b and hexf(b)}, "A:udq-pattern")
                         if a is not None and not abs(hexf(a) - hexf(b)) <= tol_doub(case, hexf(a)):
-                            return V("UDQ value differs after the round trip", {"udq": name, kind[:-1]: ent, "saved": hexf(a), "loaded": hexf(b)},
+                            yield V("UDQ value differs after the round trip", {"udq": name, kind[:-1]: ent, "saved": hexf(a), "loaded": hexf(b)},
                                      "A:udq-value")
             if "has" in sv:
                 if bool(sv["has"]) != bool(lv.get("has")):
-                    return V("UDQ defined/undefined pattern differs after the round trip",
+                    yield V("UDQ defined/undefined pattern differs after the round trip",
                              {"udq": name, "saved_defined": sv["has"], "loaded_defined": lv.get("has"),
                               "saved": hexf(sv["value"]) if sv["has"] else None}, "A:udq-pattern")
                 if sv["has"] and not abs(hexf(sv["value"]) - hexf(lv["value"])) <= tol_doub(case, hexf(sv["value"])):
-                    return V("UDQ value differs after the round trip", {"udq": name, "saved": hexf(sv["value"]), "loaded": hexf(lv["value"])},
+                    yield V("UDQ value differs after the round trip", {"udq": name, "saved": hexf(sv["value"]), "loaded": hexf(lv["value"])},
                              "A:udq-value")
         # 6. ACTIONX run records
         sa, la = r["saved"]["actions"], L["actions"]
         for name, a in sa.items():
             b = la.get(name)
+            ctx.label("A:compared:action-run-count-%d" % min(a["run_count"], 2))
             if b is None:
-                return V("action unknown after restart", name, "A:action-missing")
+                yield V("action unknown after restart", name, "A:action-missing")
+                continue
             if a["run_count"] != b["run_count"]:
-                return V("ACTIONX run count differs after the round trip", {"action": name, "saved": a["run_count"], "loaded": b["run_count"]},
+                yield V("ACTIONX run count differs after the round trip", {"action": name, "saved": a["run_count"], "loaded": b["run_count"]},
                          "A:action-run-count")
             # the last run time is stored in SACT (REAL) as elapsed time in deck units: single precision of the elapsed
             # time (+ 8 digits when formatted), truncated to whole seconds on the way back
             el = abs(a["run_time"] - S["start"]) if a["run_count"] else 0
             if a["run_count"] and abs(a["run_time"] - b["run_time"]) > el * (2 * EPS32 + (5.0e-8 if case["fmt"] else 0.0)) + 1:
-                return V("ACTIONX last run time differs after the round trip", {"action": name, "saved": a["run_time"], "loaded": b["run_time"]},
+                yield V("ACTIONX last run time differs after the round trip", {"action": name, "saved": a["run_time"], "loaded": b["run_time"]},
                          "A:action-run-time")
-        return None
+        return
 
     # ------------------------------------------------------------------------------------------------------------
     def check_B(self, case, ctx):
